@@ -28,6 +28,8 @@ def run(v, workdir, replay):
     v.need("attack:not_ibc_sudo", 1)
     v.need("attack:not_withdrawer", 2)
     v.need("former_authority_attempts", 1)
+    v.need("attack:reinit_of_existing_bridge_by_its_own_key", 5)
+    v.need("attack:reinit_of_a_disabled_bridge_by_its_own_key", 1)
 
 
 def key_addr(b64):
@@ -38,6 +40,11 @@ def check(v, hists):
     for h in hists:
         uni = h.genesis["universe"]
         genesis_sudo, genesis_ibc_sudo = uni["sudo"], uni["ibc_sudo"]
+        for e in h.events:
+            if e.get("kind") == "tx_built" and "attack_reinit_existing_bridge" in e.get("intent", ""):
+                v.saw("attack:reinit_of_existing_bridge_by_its_own_key")
+                if "_disabled" in e["intent"]:
+                    v.saw("attack:reinit_of_a_disabled_bridge_by_its_own_key")
         for o in chainlog.walk(h):
             if o.where == "packet":
                 continue
